@@ -30,7 +30,7 @@ import itertools
 from ..src import AnalysisError, loc, src, dotted, param_names
 from .. import pm, absint
 from . import linkedset
-from .linkedset import Heap, Exec, _Raise, _Unknown, TOOLS
+from .linkedset import Heap, Exec, _Raise, _Unknown, _KeyTruth, TOOLS
 
 QS = 'xtuml.meta:QuerySet.'
 CLS = 'xtuml.tools:OrderedSet'
@@ -209,6 +209,8 @@ def ends(ctx):
             ex = _exec(repo, h, classes=(QS, TOOLS))
             try:
                 got = ex.call(name, [])
+            except _KeyTruth as k:
+                got = 'a value that depends on the truth value of an element: %s' % k
             except _Raise:
                 got = 'raises'
             except _Unknown as u:
